@@ -243,6 +243,22 @@ def stimulus(rng, inputs, rsts, prev, t):
     return vals
 
 
+def _all_assigns(stmts):
+    """Every _Assign nested anywhere in a statement list."""
+    from migen.fhdl.structure import _Assign as _A, If as _If, Case as _Case
+    for st_ in stmts:
+        if isinstance(st_, _A):
+            yield st_
+        elif isinstance(st_, _If):
+            yield from _all_assigns(st_.t)
+            yield from _all_assigns(st_.f)
+        elif isinstance(st_, _Case):
+            for b_ in st_.cases.values():
+                yield from _all_assigns(b_)
+        elif isinstance(st_, (list, tuple)):
+            yield from _all_assigns(st_)
+
+
 def run_module_case(lean, rng, name, build, cycles, dis, with_orig=True, fuel=64, variant="synth", convert_kw=None,
                     capture=None):
     """build() -> (fragment-or-module, ios list, clock-domain names); deterministic (called twice).
@@ -265,6 +281,14 @@ def run_module_case(lean, rng, name, build, cycles, dis, with_orig=True, fuel=64
         ids, sigs, groups, secs = L.ser_module(cap)
         name_ids = {cap.ns.get_name(s): ids.get(s) for s in sigs}
         mt = L.parse_module(cap.text, name_ids)
+        if variant == "sim":
+            from migen.fhdl.tools import flat_iteration
+            from migen.fhdl.structure import _Assign as _A
+            if any(isinstance(st_, _A) and len(list_targets(st_)) > 1 for st_ in _all_assigns(cap.f.comb)):
+                # region of the open finding C01-sim-backend-cat-target (a comb assignment driving several signals
+                # under the per-target emitter): classified under the finding (probe in probes()), not tied here
+                raise L.Unsupported("sim back-end: comb assignment to a concatenation of several signals "
+                                    "(region of C01-sim-backend-cat-target)")
         if variant == "sim" and not mt.unsupported and not mt.blocking:
             ids, sigs, groups, secs = L.ser_module(cap, "sim", L.sim_target_order(mt))
         # keyword options that only shape the prolog / module header
@@ -2452,6 +2476,14 @@ def run_safe_module(seed, cycles, rng=None, trace=None, ticks=None):
         return 0, {"oracle": "golden-module", "error": repr(ex), "seed": seed,
                    "what": "the text emitted for a safe module cannot be read"}, False
     nl = Netlist(fA, clocks=tuple(cdsA))
+    drv, in_region = pv.driver_report()
+    if drv is not None and not in_region:
+        # (hits inside the region of the open finding C01-sim-backend-cat-target are classified under it, see probes())
+        t0 = cap.text
+        drv.update(oracle="golden-module", seed=seed, cycle=0, convert_options=kw,
+                   replay={"kind": "safe-module", "seed": seed, "trace": [], "ticks": []},
+                   verilog_text=t0[t0.index("module"):][:3000])
+        return 0, drv, False
     und = pv.undriven_report()
     if und is not None:
         nl.settle()
@@ -2888,7 +2920,7 @@ def search_slice_witness(ctx, wit, rng, tries=120):
 
 
 def candidate_probe_sim_cat_target():
-    """CANDIDATE finding (not listed in known_findings.json, NOT called from probes() until the coordinator lists it):
+    """Probe of the open finding C01-sim-backend-cat-target (called from probes()):
     convert(regular_comb=False) on `b.eq(0); Cat(a, b).eq(y); If(en, b.eq(z))`.  `_generate_combinatorial_logic_sim`
     keeps the Cat assignment for BOTH targets: for `a` it is the only statement, `_use_wire` holds and the text gets
     `assign {b, a} = y;` although `_list_comb_wires` (which works on group_by_targets groups) declared a and b `reg`
@@ -2956,6 +2988,14 @@ def probes(ctx):
                 out.append((w["id"], fails, what))
             elif fails:
                 ctx.cov.notes.append("CANDIDATE-FINDING (not yet in known_findings.json) " + w["id"] + ": " + what)
+        try:
+            cfails, cwhat = candidate_probe_sim_cat_target()
+        except Exception as ex:
+            cfails, cwhat = True, "probe crashed: %r" % (ex,)
+        if "C01-sim-backend-cat-target" in listed:
+            out.append(("C01-sim-backend-cat-target", cfails, cwhat))
+        elif cfails:
+            ctx.cov.notes.append("CANDIDATE-FINDING (not yet in known_findings.json) C01-sim-backend-cat-target: " + cwhat)
         for fid, what, rep, detail in memory_findings() + [prbs_pause_probe()]:
             if fid in listed:
                 out.append((fid, rep, what + " " + json.dumps(detail)))
